@@ -9,20 +9,34 @@
          ("by now t has started", "by now submitter t holds result v", ...).  The log is accepted iff
          the set never becomes empty.  Worker identity is not observable, so states are kept modulo
          permutation of the worker list (sorted) - workers are interchangeable in [step].
-     (b) oracle: the statement of C20 evaluated on the log alone, without the model. *)
+     (b) oracle: the statement of C20 evaluated on the log alone, without the model: peak concurrency within the
+         size bound; every task accepted by the pool executed exactly once (events and the per-task execution
+         counters of the real code), no task more than once overall, a task refused to ExecuteWithWorker executed
+         exactly once in the caller; every answer is the task's own value - nil, typed nil and zero values
+         included, since tasks of all three entry points return a mix of them; nobody left blocked; no panic. *)
 From Coq Require Import List Arith Bool NArith.
 From Verif Require Import Model.PoolLTS Model.PoolCfg Corr.Common.
 Import ListNotations.
 Local Open Scope nat_scope.
 
+(* what a task body returns / what came back.  Half of the tasks return a value that names them (VOwn id); the
+   others nil (untyped, or a nil error: the same nil interface value), a typed nil pointer, or a zero value -
+   every one of them a legitimate result of an executed task. *)
+Inductive val := VOwn (n : nat) | VNil | VNilPtr | VZero | VEmpty | VUnit | VOther.
+Definition val_eqb (a b : val) : bool :=
+  match a, b with
+  | VOwn n, VOwn m => Nat.eqb n m
+  | VNil, VNil | VNilPtr, VNilPtr | VZero, VZero | VEmpty, VEmpty | VUnit, VUnit => true
+  | _, _ => false     (* VOther equals nothing *)
+  end.
+
 Inductive res :=
-| RGot (v : nat)     (* a value arrived on the result channel (tasks return their own id) *)
-| RNil               (* a nil value arrived *)
-| RNotExec           (* Submit accepted, channel closed: told "not executed" *)
-| RRejected          (* Submit returned nil *)
-| RFalse             (* SubmitWait returned ok = false (rejected or not executed) *)
-| RDirect            (* ExecuteWithWorker ran the task in the caller (rejected or not executed) *)
-| RPanic.            (* the Submit call panicked *)
+| RGot (v : val)         (* a value arrived on the result channel with ok = true (Submit+receive, SubmitWait) *)
+| RNotExec               (* Submit accepted, channel closed: told "not executed" *)
+| RRejected              (* Submit returned nil *)
+| RFalse                 (* SubmitWait returned ok = false (rejected or not executed) *)
+| REww (v : val) (d : nat) (* ExecuteWithWorker returned v; the body ran d times in the caller itself *)
+| RPanic.                (* the Submit call panicked *)
 
 Inductive ev :=
 | ECall (t : nat)                 (* a goroutine calls Submit / SubmitWait / ExecuteWithWorker for task t *)
@@ -34,7 +48,11 @@ Inductive ev :=
 | ERzCall (n : nat) | ERzRet
 | EQuiesce (blk : list nat).      (* nothing moved for the settle time; blk = submitters still without an answer *)
 
-Record case := { c_n : nat; c_evs : list ev }.
+(* c_vals: each task's own value; c_counts: per task, how often its body ran on a pool goroutine and how often on
+   the goroutine that called ExecuteWithWorker - counted on the real code, read at quiescence *)
+Record case := { c_n : nat; c_vals : list (nat * val); c_evs : list ev; c_counts : list (nat * (nat * nat)) }.
+Definition own_val (vals : list (nat * val)) (t : nat) : val :=
+  match find (fun e => Nat.eqb (fst e) t) vals with Some e => snd e | None => VOther end.
 
 (* ---------- state equality and canonical form ---------- *)
 Definition bool_eqb (a b : bool) := Bool.eqb a b.
@@ -138,13 +156,16 @@ Definition sub_is (t : nat) (p : sst -> bool) (s : state) : bool :=
 Definition mem_nat (t : nat) (l : list nat) : bool := existsb (Nat.eqb t) l.
 Definition same_set (a b : list nat) : bool := forallb (fun x => mem_nat x b) a && forallb (fun x => mem_nat x a) b.
 
-Definition res_matches (t : nat) (r : res) (st : sst) : bool :=
+(* SGot (Some t) = the submitter holds the result of its own task: the value must be the task's own value (nil
+   included).  SGot None = a nil that is nobody's result (the overflow of the code before 9607c86).
+   ExecuteWithWorker runs the task itself exactly when the pool refused it or told "not executed". *)
+Definition res_matches (own : val) (t : nat) (r : res) (st : sst) : bool :=
   match r, st with
-  | RGot v, SGot (Some u) => Nat.eqb u v
-  | RNil, SGot None => true
+  | (RGot v | REww v O), SGot (Some u) => Nat.eqb u t && val_eqb v own
+  | (RGot v | REww v O), SGot None => val_eqb v VNil
   | RNotExec, SNotExec => true
   | RRejected, SRejected => true
-  | (RFalse | RDirect), (SNotExec | SRejected) => true
+  | (RFalse | REww _ (S _)), (SNotExec | SRejected) => true
   | RPanic, SPanic => true
   | _, _ => false
   end.
@@ -153,7 +174,7 @@ Definition res_matches (t : nat) (r : res) (st : sst) : bool :=
    Noticed facts are filters; each of them is stable under internal steps (answers are final, a started
    task stays started-or-executed, only a call leaves SpIdle/RpIdle, a quiescent state has no successor),
    so a filtered closed set is closed.  Some S' (possibly empty = rejected) or None (out of fuel). *)
-Definition on_event (c : cfg) (e : ev) (T : list state) : option (list state) :=
+Definition on_event (c : cfg) (vals : list (nat * val)) (e : ev) (T : list state) : option (list state) :=
   let after (S : list state) := tau c S in
   match e with
   | ECall t => after (apply_label c (SubmitCall t) T)
@@ -163,7 +184,7 @@ Definition on_event (c : cfg) (e : ev) (T : list state) : option (list state) :=
   | ERet t acc => Some (filter (sub_is t (fun st => if acc then match st with SWait | SGot _ | SNotExec => true | _ => false end
                                                     else match st with SRejected => true | _ => false end)) T)
   | EStart t _ => Some (filter (fun s => mem_nat t (exec_tasks (workers s)) || mem_nat t (executed s)) T)
-  | ERes t r => Some (filter (sub_is t (res_matches t r)) T)
+  | ERes t r => Some (filter (sub_is t (res_matches (own_val vals t) t r)) T)
   | EStopRet => Some (filter (fun s => match stop s with SpIdle => true | _ => false end) T)
   | ERzRet => Some (filter (fun s => match rz s with RpIdle => true | _ => false end) T)
   | EQuiesce blk => Some (filter (fun s => quiescentb c s && same_set (blocked s) blk) T)
@@ -173,63 +194,86 @@ Definition is_panic_ev (e : ev) : bool := match e with ERes _ RPanic => true | _
 
 (* (a fold rather than a Fixpoint: the guard checker would otherwise unfold the fuel of [tau]) *)
 Record mon := { m_i : N; m_S : list state; m_out : list (N * N); m_done : bool }.
-Definition mon_step (c : cfg) (m : mon) (e : ev) : mon :=
+Definition mon_step (c : cfg) (vals : list (nat * val)) (m : mon) (e : ev) : mon :=
   if m_done m then m else
-  match on_event c e (m_S m) with
+  match on_event c vals e (m_S m) with
   | None | Some [] => {| m_i := m_i m; m_S := []; m_out := [(m_i m, code_mismatch)]; m_done := true |}
   | Some S' => {| m_i := (m_i m + 1)%N; m_S := S'; m_out := [];
                   m_done := is_panic_ev e (* the modelled process is dead; the oracle reports it *) |}
   end.
-Definition monitor (c : cfg) (i : N) (S : list state) (evs : list ev) : list (N * N) :=
-  m_out (fold_left (mon_step c) evs {| m_i := i; m_S := S; m_out := []; m_done := false |}).
+Definition monitor (c : cfg) (vals : list (nat * val)) (i : N) (S : list state) (evs : list ev) : list (N * N) :=
+  m_out (fold_left (mon_step c vals) evs {| m_i := i; m_S := S; m_out := []; m_done := false |}).
 
 Definition mismatch (c : case) : list (N * N) :=
   match tau current_cfg [canon (init (c_n c))] with
-  | Some S0 => monitor current_cfg 0%N S0 (c_evs c)
+  | Some S0 => monitor current_cfg (c_vals c) 0%N S0 (c_evs c)
   | None => [(0%N, code_mismatch)]
   end.
 
 (* ---------- the oracle: C20 on the log itself ---------- *)
 Record ost := { o_size : nat; o_target : option nat; o_started : list nat; o_res : list (nat * res); o_called : list nat }.
-Definition executed_res (r : res) : bool := match r with RGot _ | RNil => true | _ => false end.
+(* the answers that say "the pool executed it" *)
+Definition executed_res (r : res) : bool := match r with RGot _ | REww _ O => true | _ => false end.
 Definition find_res (t : nat) (l : list (nat * res)) : option res :=
   match find (fun e => Nat.eqb (fst e) t) l with Some e => Some (snd e) | None => None end.
+Definition find_counts (t : nat) (l : list (nat * (nat * nat))) : option (nat * nat) :=
+  match find (fun e => Nat.eqb (fst e) t) l with Some e => Some (snd e) | None => None end.
 
-Definition ostep (o : ost) (e : ev) : option ost :=
+(* the execution counts of one task against its answer: accepted by the pool => exactly one execution, on a
+   worker; refused / told "not executed" => none by the pool, and exactly one in the caller for ExecuteWithWorker
+   (none for Submit / SubmitWait, whose caller is the driver); never more than one overall *)
+Definition counts_ok (k : case) (o_started : list nat) (o_res : list (nat * res)) (t : nat) : bool :=
+  match find_counts t (c_counts k), find_res t o_res with
+  | Some (p, d), Some r =>
+      Nat.eqb p (if existsb (Nat.eqb t) o_started then 1 else 0) && (p + d <=? 1) &&
+      match r with
+      | RGot _ | REww _ O => Nat.eqb p 1 && Nat.eqb d 0
+      | REww _ (S _) => Nat.eqb p 0 && Nat.eqb d 1
+      | RNotExec | RRejected | RFalse => Nat.eqb p 0 && Nat.eqb d 0
+      | RPanic => false
+      end
+  | _, _ => false
+  end.
+
+Definition ostep (k : case) (o : ost) (e : ev) : option ost :=
   match e with
   | ECall t => if mem_nat t (o_called o) then None
                else Some {| o_size := o_size o; o_target := o_target o; o_started := o_started o; o_res := o_res o; o_called := t :: o_called o |}
   | ERzCall n => Some {| o_size := o_size o; o_target := Some (Nat.max n 1); o_started := o_started o; o_res := o_res o; o_called := o_called o |}
   | ERzRet => Some {| o_size := match o_target o with Some n => n | None => o_size o end; o_target := None;
                       o_started := o_started o; o_res := o_res o; o_called := o_called o |}
-  | EStart t k =>
+  | EStart t b =>
       let bound := match o_target o with Some n => Nat.max (o_size o) n | None => o_size o end in
       (* bounded concurrency; at most once; not both executed by the pool and reported as not executed *)
-      if (k <=? bound) && negb (mem_nat t (o_started o)) &&
+      if (b <=? bound) && negb (mem_nat t (o_started o)) &&
          match find_res t (o_res o) with Some r => executed_res r | None => true end
       then Some {| o_size := o_size o; o_target := o_target o; o_started := t :: o_started o; o_res := o_res o; o_called := o_called o |}
       else None
   | ERes t r =>
+      let own := own_val (c_vals k) t in
       if negb (mem_nat t (map fst (o_res o))) &&
          match r with
-         | RGot v => Nat.eqb v t && mem_nat t (o_started o)     (* the right task's result, and it did run *)
-         | RNil | RPanic => false                               (* nil taken for a result; crash *)
-         | RNotExec | RRejected | RFalse | RDirect => negb (mem_nat t (o_started o))
+         | RGot v | REww v O => val_eqb v own && mem_nat t (o_started o)   (* its own value (nil included), and it did run *)
+         | REww v (S d) => Nat.eqb d 0 && val_eqb v own && negb (mem_nat t (o_started o))
+                                                      (* ran in the caller: once, with its own value, and not in the pool *)
+         | RNotExec | RRejected | RFalse => negb (mem_nat t (o_started o))
+         | RPanic => false                                                  (* crash *)
          end
       then Some {| o_size := o_size o; o_target := o_target o; o_started := o_started o; o_res := (t, r) :: o_res o; o_called := o_called o |}
       else None
   | EQuiesce blk =>
-      if match blk with [] => true | _ => false end && forallb (fun t => mem_nat t (map fst (o_res o))) (o_called o)
+      if match blk with [] => true | _ => false end && forallb (fun t => mem_nat t (map fst (o_res o))) (o_called o) &&
+         forallb (counts_ok k (o_started o) (o_res o)) (o_called o)
       then Some o else None
   | _ => Some o
   end.
-Fixpoint oracle (i : N) (o : ost) (evs : list ev) : list (N * N) :=
+Fixpoint oracle (k : case) (i : N) (o : ost) (evs : list ev) : list (N * N) :=
   match evs with
   | [] => []
-  | e :: r => match ostep o e with Some o' => oracle (i + 1)%N o' r | None => [(i, code_specfail)] end
+  | e :: r => match ostep k o e with Some o' => oracle k (i + 1)%N o' r | None => [(i, code_specfail)] end
   end.
 Definition specfail (c : case) : list (N * N) :=
-  oracle 0%N {| o_size := c_n c; o_target := None; o_started := []; o_res := []; o_called := [] |} (c_evs c).
+  oracle c 0%N {| o_size := c_n c; o_target := None; o_started := []; o_res := []; o_called := [] |} (c_evs c).
 
 Definition check (c : case) : list (N * N) := specfail c ++ mismatch c.
 Definition run (cs : list case) : result := run_cases check cs.
